@@ -153,6 +153,39 @@ def saveload_event(r, oid, binary):
         shutil.rmtree(tmp, ignore_errors=True)
 
 
+def _reorder(v):
+    """the same value with every dictionary rebuilt in reversed key insertion order"""
+    if isinstance(v, dict):
+        return {k: _reorder(v[k]) for k in reversed(list(v.keys()))}
+    if isinstance(v, list):
+        return [_reorder(x) for x in v]
+    return v
+
+
+def reordered_twin(r, obj):
+    """a copy of obj with equal content whose metadata dictionaries (all levels, nested ones too) were
+    re-created with another key insertion order, through the public setters the class offers"""
+    h = obj.copy()
+    b = r.b
+    h.set_hypergraph_metadata(_reorder(h.get_hypergraph_metadata()))
+    if b.kind != "mux":
+        for n in list(h.get_nodes()):
+            h.set_node_metadata(n, _reorder(h.get_node_metadata(n)))
+        for e in list(h.get_edges()):
+            if b.kind in ("hg", "dir"):
+                h.set_edge_metadata(e, _reorder(h.get_edge_metadata(e)))
+            else:
+                h.set_edge_metadata(e[1], e[0], _reorder(h.get_edge_metadata(e[1], e[0])))
+    else:
+        for e in list(h.get_edges()):
+            md = dict(h.get_edge_metadata(e[0], e[1]))
+            for k in list(md.keys()):
+                h.remove_attr_from_edge_metadata(e[0], e[1], k)
+            for k in reversed(list(md.keys())):
+                h.set_attr_to_edge_metadata(e[0], e[1], k, _reorder(md[k]))
+    return h
+
+
 def hash_event(r, oid):
     from hypergraphx.readwrite.hashing import hash_hypergraph
     obj = r.objs[oid]
@@ -160,6 +193,11 @@ def hash_event(r, oid):
     ev = {"op": {"op": "hash"}, "ok": err is None}
     if dg is not None:
         ev["digest"] = str(dg)
+        # metamorphic twin: equal content, metadata dictionaries created in another key order
+        if "copy" not in __import__("harness.binding", fromlist=["UNSUPPORTED"]).UNSUPPORTED[r.b.kind]:
+            tw, terr = _safe(lambda: hash_hypergraph(reordered_twin(r, obj)))
+            if tw is not None:
+                ev["digest_reordered"] = str(tw)
     return ev
 
 
